@@ -83,7 +83,7 @@ def programs(draw):
     # one program in ten initialises a thread again (same tid) after ovni_thread_free():
     # the library is expected to refuse it; if a tree accepts it, the crash points of
     # the second life are enumerated like any others
-    reinit = draw(st.integers(0, 9)) == 0
+    reinit = draw(st.sampled_from([False] * 11 + [True]))      # (sampled_from is uniform; small integer ranges are not)
     return {"threads": threads, "tmpdir": draw(st.sampled_from([True, True, False])), "readdir": draw(st.integers(0, 1)),
             "interleave": draw(st.integers(0, 1000)), "short": draw(st.sampled_from([None, None, "half"])),
             "reinit": reinit,
